@@ -325,6 +325,17 @@ func recSpeciation(args []string) int {
 				sr.emit(ev, srcE, nontrivial)
 			},
 		}
+		geneless := false
+		for _, o := range pop.Organisms {
+			if len(o.Genotype.Genes) == 0 {
+				geneless = true
+			}
+		}
+		if geneless {
+			// NewPopulationRandom can produce genomes without genes; mating them panics inside the library (outside C08)
+			sr.aborted = append(sr.aborted, fmt.Sprintf("%s: random population contains a gene-less genome, not evolved", sc.Name))
+			continue
+		}
 		done, rerr := 0, error(nil)
 		if p := vhu.Guard(func() { done, rerr = runEpochs(&sc, r, opts, pop, ob) }); p != "" {
 			sr.aborted = append(sr.aborted, fmt.Sprintf("%s: panic after %d epochs: %s", sc.Name, done, p))
